@@ -167,41 +167,93 @@ def in_win(e, starttime, endtime):
     return (starttime is None or starttime <= e.timestamp + e.duration) and (endtime is None or e.timestamp <= endtime)
 
 
+# C03 honours the window edges "to the store's millisecond resolution": an event within a millisecond of an edge may go either
+# way.  A windowed read is therefore specified by two predicates - what MUST be returned (reaches into the window by at least a
+# millisecond) and what MAY be returned (comes within a millisecond of it) - and not by the closed-interval test the code happens
+# to use, so that a change which opens or closes an edge is not reported as a violation of a property that allows it.
+EDGE = timedelta(milliseconds=1)
+
+
+@spec
+def must_win(e, starttime, endtime):
+    return (starttime is None or starttime + EDGE <= e.timestamp + e.duration) and (endtime is None or e.timestamp + EDGE <= endtime)
+
+
+@spec
+def may_win(e, starttime, endtime):
+    return (starttime is None or starttime - EDGE <= e.timestamp + e.duration) and (endtime is None or e.timestamp - EDGE <= endtime)
+
+
 contract(
     M_ + ".get_eventcount",
     params={"self": "MemoryStorage", "bucket": "str", "starttime": "Optional[datetime]", "endtime": "Optional[datetime]"},
     returns="int", requires=["bucket in self.db", "mem_inv(self)"],
     ensures=[
-        # the number of stored events that intersect the window: as many as the (ghost) filter selected
+        # the number of stored events that intersect the window (edges to the millisecond, see must_win / may_win): as many as the (ghost) filter selected
         "result == len(last_filter())",
         "all(0 <= filter_sel(last_filter())[j] and filter_sel(last_filter())[j] < len(self.db[bucket])"
-        "    and in_win(self.db[bucket][filter_sel(last_filter())[j]], starttime, endtime) for j in range(result))",
+        "    and may_win(self.db[bucket][filter_sel(last_filter())[j]], starttime, endtime) for j in range(result))",
         "all(filter_sel(last_filter())[j] < filter_sel(last_filter())[j2] for j in range(result) for j2 in range(j + 1, result))",
-        "all(not in_win(self.db[bucket][i], starttime, endtime) or (0 <= filter_pos(last_filter())[i] and filter_pos(last_filter())[i] < result"
+        "all(not must_win(self.db[bucket][i], starttime, endtime) or (0 <= filter_pos(last_filter())[i] and filter_pos(last_filter())[i] < result"
         "    and filter_sel(last_filter())[filter_pos(last_filter())[i]] == i) for i in range(len(self.db[bucket])))",
     ],
     modifies=["alloc"], writes_fresh=["List.len", "List.items"], raises=[],
 )
 
+def _complete(guard, W):
+    """Nothing that intersects the window is missing: stored event i (if in the window) is returned at position W(i) - the position
+    the sort, the reversal and the filters that ran give it - unless a positive limit was reached and W(i) lies beyond it (the result
+    being the first `limit` entries of a list ordered newest first, every omitted event is then no newer than any returned one)."""
+    return (f"limit == 0 or {guard} or all(not must_win(self.db[bucket][i], starttime, endtime) or "
+            f"((0 <= {W} and {W} < len(result) and same_event(result[{W}], self.db[bucket][i]))"
+            f" or (limit > 0 and len(result) == limit and {W} >= limit))"
+            f" for i in range(len(self.db[bucket])))")
+
+
+def _sound(guard, V):
+    """Each returned event is the copy of a stored event that intersects the window: result[j] is the copy of stored event V(j) - the
+    inverse of W, through the selection maps of the filters that ran and the permutation of the sort."""
+    return (f"{guard} or all(0 <= {V} and {V} < len(self.db[bucket]) and same_event(result[j], self.db[bucket][{V}])"
+            f" and may_win(self.db[bucket][{V}], starttime, endtime) for j in range(len(result)))")
+
+
+GET_EVENTS_SOUND = [
+    _sound("starttime is not None or endtime is not None", "SP[n0 - 1 - j]"),
+    _sound("starttime is None or endtime is not None", "SP[n0 - 1 - FS1[j]]"),
+    _sound("starttime is not None or endtime is None", "SP[n0 - 1 - FS2[j]]"),
+    _sound("starttime is None or endtime is None", "SP[n0 - 1 - FS1[FS2[j]]]"),
+]
+_R = "n0 - 1 - Q[i]"
+GET_EVENTS_COMPLETE = [
+    _complete("starttime is not None or endtime is not None", _R),               # no bound given: no filter ran
+    _complete("starttime is None or endtime is not None", f"FP1[{_R}]"),          # start bound only
+    _complete("starttime is not None or endtime is None", f"FP2[{_R}]"),          # end bound only
+    _complete("starttime is None or endtime is None", f"FP2[FP1[{_R}]]"),         # both
+]
+
 contract(
     M_ + ".get_events",
     params={"self": "MemoryStorage", "bucket": "str", "limit": "int", "starttime": "Optional[datetime]", "endtime": "Optional[datetime]"},
     returns="List[Event]", requires=["bucket in self.db", "mem_inv(self)"],
+    # ghost witnesses for completeness: Q[i] = position of stored event i after the sort, FP1 / FP2 = position maps of the two filters
+    # (and their inverses SP, FS1, FS2 for soundness)
+    ghost_vars={"Q": ("IntMap", "mnew()"), "FP1": ("IntMap", "mnew()"), "FP2": ("IntMap", "mnew()"), "n0": ("int", "0"),
+                "SP": ("IntMap", "mnew()"), "FS1": ("IntMap", "mnew()"), "FS2": ("IntMap", "mnew()")},
+    ghost_code=[
+        dict(after="events = sorted(events", code="Q = sort_inv(self.db[bucket])\nSP = sort_perm(self.db[bucket])\nn0 = len(self.db[bucket])"),
+        dict(after="events = [e for e in events if starttime", code="FP1 = filter_pos(events)\nFS1 = filter_sel(events)"),
+        dict(after="events = [e for e in events if e.timestamp", code="FP2 = filter_pos(events)\nFS2 = filter_sel(events)"),
+    ],
     ensures=[
         "limit != 0 or len(result) == 0",
         "limit <= 0 or len(result) <= limit",
         # what is handed out is the caller's: fresh objects with fresh data dicts
         "fresh(result) and all(fresh(result[j]) and fresh(result[j].data) for j in range(len(result)))",
-        # each of them is the copy of a stored event that intersects the window
-        "all(any(same_event(result[j], self.db[bucket][i]) and in_win(self.db[bucket][i], starttime, endtime) for i in range(len(self.db[bucket])))"
-        "    for j in range(len(result)))",
         # newest first
         "all(result[j].timestamp >= result[j + 1].timestamp for j in range(len(result) - 1))",
-        # (that nothing intersecting the window is missing is NOT proved here: the chain sort / reverse / filter / filter / slice /
-        #  copy defeated both solvers; the bounded windowed-read harness covers it)
         # the store itself is not touched by a read
         "len(self.db[bucket]) == old(len(self.db[bucket])) and all(self.db[bucket][i] is old(self.db[bucket][i]) for i in range(len(self.db[bucket])))",
-    ],
+    ] + GET_EVENTS_SOUND + GET_EVENTS_COMPLETE,
     modifies=["alloc"], writes_fresh=["*"], raises=[],
 )
 
